@@ -34,15 +34,16 @@ CHECKS = {
  "C05": dict(
   text="Lean theorems about a model that mirrors embedded/store OngoingTx (lazy per-index snapshots in acquisition order, own writes, "
        "mvccReadSet recording incl. ongoingTxKeyReader's per-row records, Reset without clearing `skipped`) and checkPreconditions / precommit "
-       "branch by branch (early `return nil` when Ts() > LastPrecommittedTxID, expected gets / prefix gets / reader re-execution with the "
+       "branch by branch (a snapshot with Ts() > LastPrecommittedTxID is skipped with `continue` - repaired, was an early `return nil` = DESIGN K8 -, expected gets / prefix gets / reader re-execution with the "
        "held-row register / prefix fingerprints), for an explicit, universally quantified schedule of atomic steps (API call of tx i with an "
        "arbitrarily stale snapshot choice, commit critical section, write-only commit, indexer progress). Proved for EVERY schedule: "
        "validation_sound_get/pget/scan/fp (validation ok => the read re-executed on LogView(last) + own writes returns the recorded result), "
-       "serializable_partial (every committed tx returned, call by call, what its program returns alone on LogView(id-1)) under three decidable "
-       "side conditions, serializable_default + default_snapshots_monotone (with default TxOptions one of them always holds), "
+       "serializable_partial (every committed tx returned, call by call, what its program returns alone on LogView(id-1)) under two decidable "
+       "side conditions (for any SnapshotMustIncludeTxID and any order of snapshot acquisition), commit_validates_every_snapshot (no conflict reported => every held snapshot "
+       "is taken at the last precommitted tx or validated), "
        "aborted_no_trace(+_step), closed_tx_inert, read_your_own_writes(+_set,+_scan), atomic_visibility. The full serializability statement is "
-       "FALSE for the code as it is: three witness theorems (serializable_fails_later_snapshot_unvalidated = DESIGN K8 confirmed, "
-       "serializable_fails_scan_own_write_tail, serializable_fails_prefix_get_own_write), each reproduced on the real store. "
+       "FALSE for the code as it is: two witness theorems (serializable_fails_scan_own_write_tail, serializable_fails_prefix_get_own_write), each reproduced on the real "
+       "store; the third one (DESIGN K8) is repaired in /repo and restated as later_snapshot_validated (the two-index schedule now ends in a read conflict). "
        "Tie: real store, 1..2 indexes, 4..12 keys, 2..8 transaction programs per case in three modes (deterministic phantom/stale templates "
        "ordered through channels, seeded random interleavings with deterministic stale snapshots via SnapshotMustIncludeTxID + snapshot-root "
        "refresh, free-running goroutines with write-only committers, snapshot readers and MaxBulkSize 1); the observed scheduling facts "
@@ -188,12 +189,12 @@ CHECKS = {
        "(entry loop, entries digest, header binding by id AND Alh on both ends of the dual proof, known-state checks, VerifyDualProofV2) with verifyDocument_sound "
        "(an accepted proof: the shipped tx header has the id and the Alh of the proven end, one entry carries the key and H(EncodedDocument), entries hash to eH, known state "
        "is an end, the dual proof verified, new state = target), verifyDocument_entry_in_tx (if the proof header with that id is the genuine header of the tx then "
-       "(md, document key, H(EncodedDocument)) is one of the tx's entries, or a collision of H) and bound_requires_alh; tied by `c19 vdoc` on every proof round: genuine "
+       "(md, document key, H(EncodedDocument)) is one of the tx's entries, or a collision of H) , bound_requires_alh and verifyDocument_short_row_rejected (an EncodedDocument shorter than a slice offset is refused with ErrInvalidProof - the former panic, repaired in /repo); tied by `c19 vdoc` on every proof round: genuine "
        "proofs for every relation known-state/document-tx (none, older, equal, newer) and ~20 kinds of coherent forgeries (payload+hValue+eH rebuilt, headers moved between "
        "the ends, another tx under the proved id, same id other Alh, entries added/removed, cut rows), judged by a ground-truth oracle (stored revisions + genuine Alh per tx).",
   note=TB + " Modelled rather than verified / outside the Lean fragment (oracle only): UUID fields, LIKE/NOT_LIKE, secondary and unique indexes and the SQL planner, "
        "field-name validation, id generation, the protobuf payload encoding (for document proofs the outcome of decode+proto.Equal is an input of the model; the state signature is a predicate). Ties (equal sort keys) are compared "
-       "modulo order because the engine sorts with the unstable sort.Slice. float->int64 is modelled as amd64 CVTTSD2SI. Known findings (27 signatures, 10 root causes) "
+       "modulo order because the engine sorts with the unstable sort.Slice. float->int64 is modelled as amd64 CVTTSD2SI. Known findings (27 signatures, 9 root causes; the VerifyDocument slice panic is repaired and its signature stays armed) "
        "are genuine defects of /repo, see known_findings.json.",
   technique="Lean 4 proof (list induction over a small executable spec) + differential correspondence against embedded/document and pkg/database + model-independent oracle with classified quirks",
   design="7/C19"),
